@@ -354,9 +354,16 @@ def run_shard(acc, shard, nshards, seed, tier):
         @st.composite
         def w(draw):
             spec = draw(base)
-            if draw(st.sampled_from([False, True, False, True, False])):
+            if draw(st.sampled_from([False, False, True])):
+                for sc in spec['scripts'].values():
+                    sc['read_metrics'] = True  # the strategy looks at self.metrics at every step and at every close
+            mode = draw(st.sampled_from(['free', 'whole', 'free', 'whole', 'just-past', 'just-past']))
+            if mode != 'free':
                 n2 = (spec['n'] // 1440) * 1440
-                if n2 >= 1440:
+                if mode == 'just-past':
+                    # the last step of the session starts exactly on (or a few minutes after) a day boundary
+                    n2 += draw(st.sampled_from([1, 1, 2, 3, 5, 15, 30]))
+                if 1440 <= n2 <= spec['n']:
                     spec = dict(spec, candles={s_: rows[:n2] for s_, rows in spec['candles'].items()}, n=n2, fast=draw(st.booleans()))
             return spec
         return w()
@@ -366,6 +373,10 @@ def run_shard(acc, shard, nshards, seed, tier):
         vios, flags, r = session_case(spec)
         if spec['n'] % 1440 == 0:
             flags.add('whole-days')
+        elif spec['n'] % 1440 <= 30:
+            flags.add('ends-just-past-a-day-boundary')
+        if any(sc.get('read_metrics') for sc in spec['scripts'].values()):
+            flags.add('strategy-reads-self.metrics')
         nt = bool(flags & {'sample-with-open-position', 'sample-with-resting-buy'})
         cl = ['session:' + spec['cfg']['type'], f"routes={len(spec['routes'])}", 'fast' if spec['fast'] else 'step'] + sorted(flags)
         return dict(key=('s', spec['cfg'], spec['scripts'], {k: v[:3] for k, v in spec['candles'].items()}), nontrivial=nt, classes=cl,
